@@ -91,6 +91,9 @@ pub struct Features {
     pub compression: Vec<String>,
     pub auth: bool,
     pub advertise_shard_aware_port: bool,
+    /// Per mille of Rows answers that carry their metadata although the client asked the
+    /// node to skip it (skipping is a request, not an obligation).
+    pub metadata_despite_skip_permille: u64,
 }
 
 impl Default for Features {
@@ -103,6 +106,7 @@ impl Default for Features {
             compression: vec!["lz4".into(), "snappy".into()],
             auth: false,
             advertise_shard_aware_port: true,
+            metadata_despite_skip_permille: 0,
         }
     }
 }
@@ -1006,6 +1010,13 @@ fn answer_statement(
             // the EXECUTE with the current one and, on mismatch, sends the metadata
             // together with the new id (whatever skip_metadata says).
             let mut no_metadata = prepared && params.skip_metadata;
+            if no_metadata
+                && w.cluster.features.metadata_despite_skip_permille > 0
+                && crate::tape::chance("srv:metadata_despite_skip", w.cluster.features.metadata_despite_skip_permille, 1000)
+            {
+                no_metadata = false;
+                w.probe("metadata_sent_despite_skip");
+            }
             let mut new_metadata_id = None;
             if prepared && w.conns[rq.conn].cql.metadata_id_ext {
                 if let Request::Execute { result_metadata_id: Some(presented), .. } = req {
